@@ -3,7 +3,7 @@ from fractions import Fraction
 
 from .. import alg, fitmodel as fm
 from ..alg import Poly, P, B, sym, sum_over, lt, mk_fn, Facts
-from ..interp import Interp, Hooks, Arr, Obj, Unk, symarr, scalar, num, unit_atom
+from ..interp import Interp, Hooks, Arr, Obj, Unk, symarr, scalar, num, unit_atom, init_obj
 from ..fitmodel import W, M, D, loc, compare
 from ..loader import AnalysisError
 from ..astutil import up
@@ -220,7 +220,7 @@ def check_log_fluxes(ctx):
     g = ctx.fn(repo.func('models', 'Models.log_fluxes_mJy@getter'))
     for dd in ((M, W), (M, D, W)):
         I = Interp(repo)
-        me = Obj(repo.cls('models', 'Models'), {'_fluxes': symarr('Fm', dd, unit=unit_atom('mJy'))})
+        me = init_obj(repo, repo.cls('models', 'Models'), {'_fluxes': symarr('Fm', dd, unit=unit_atom('mJy'))})
         out = I.call(g, [], selfv=me)
         Fm = sym('Fm', *dd)
         facts = Facts().assume_false(alg.eq(Fm, 0))
